@@ -3,6 +3,8 @@ mod config;
 mod paths;
 mod runtime;
 mod storage;
+#[cfg(walrus_verif)]
+pub mod verif;
 
 pub use block::Entry;
 pub use config::{FsyncSchedule, PREFIX_META_SIZE, disable_fd_backend, enable_fd_backend};
